@@ -249,6 +249,11 @@ def serviceStep (st : ServiceSt) (toks : List String) : ServiceSt × String :=
   | ["spermit", _] => (st, "ok")   -- the permit list concerns the packet filter only
   | ["sevresub", _] => (st, "ok")  -- a new event stream: what is observed does not change
   | ["ssleep", _] => (st, "ok")
+  | ["ssetsock", x, loc] =>
+    -- `Discv5::update_local_enr_socket`: the application writes the local record itself
+    match getInst st x, parseRec (loc.drop 6).toString with
+    | some i, some r => (setInst st { i with svc := { i.svc with localRec := r } }, "ok")
+    | _, _ => (st, "noop")
   | ["sbanfill", _] => (st, "ok")  -- entries already on the ban lists are not news
   | "sidle" :: x :: sfx =>
     match getInst st x with
